@@ -26,7 +26,7 @@ J gen_seq(const std::string& prop, uint64_t run_seed, const std::string& tier) {
   if (prop != "C05lite" && g.chance(1, 300)) {
     // x followed by more than 4 GiB of y (here: zero bytes, each a valid item): a receiver that maps a large file and decodes item by item
     GenProfile gp; gp.max_depth = 2; gp.max_kids = 3; std::vector<uint8_t> x;
-    if (g.chance(1, 2)) { uint64_t cnt = g.range(1000, 3000); bool map = g.chance(1, 3); ref_head(map ? 5 : 4, cnt, x); for (uint64_t i = 0; i < cnt * (map ? 2 : 1); i++) x.push_back((uint8_t)(i % 24)); }
+    if (g.chance(1, 2)) { static const uint64_t BIGC[] = {65535, 65536, 70000, 100000, 262145}; uint64_t cnt = g.chance(1, 2) ? BIGC[g.below(5)] : g.range(1000, 3000);   /* counts beyond 16 bits too: x may itself be wide */ bool map = g.chance(1, 3); ref_head(map ? 5 : 4, cnt, x); for (uint64_t i = 0; i < cnt * (map ? 2 : 1); i++) x.push_back((uint8_t)(i % 24)); }
     else gen_encode(g, gen_mv(g, gp), x);
     J h = J::obj(); h.set("hex", to_hex(x)); J sizes = J::arr();
     for (int i = 0; i < 10; i++) { uint64_t base = (uint64_t)1 << 32; sizes.push(g.chance(1, 2) ? base + g.below(4000) : g.chance(1, 2) ? base + g.below(100000) : 2 * base + g.below(4000)); }
@@ -40,7 +40,7 @@ J gen_seq(const std::string& prop, uint64_t run_seed, const std::string& tier) {
   knobs.set("rm", kn.below(2));
   knobs.set("maxreq", kn.chance(1, 4) ? 4096 : (1u << 20));
   knobs.set("fill", kn.below(4) == 0 ? kn.range(1, 2) : 0);   // fresh memory: mostly 0xAA, sometimes all-zero or all-ones
-  knobs.set("fpmode", kn.below(4) == 0 ? 1 : 0);   // a quarter of the runs with FTZ/DAZ set in the thread's MXCSR
+  knobs.set("fpmode", gen_fpmode(kn));   // the calling thread's floating-point environment: FTZ/DAZ in a quarter of the runs, a directed rounding mode in a quarter
   plan.set("knobs", knobs);
   GenProfile gp; gp.max_depth = 3; gp.max_kids = 3; gp.big_len_cap = 200;
   J conns = J::arr();
@@ -133,7 +133,7 @@ struct Event { uint64_t at, seq; int conn; bool operator>(const Event& o) const 
 
 static void exec_seq_huge(const J& h) {
   uint8_t* R = huge_region(); if (!R) { stat_add("huge_region_unavailable"); return; }
-  std::vector<uint8_t> x = from_hex(h.gets("hex")); if (x.empty() || x.size() > 60000) return;
+  std::vector<uint8_t> x = from_hex(h.gets("hex")); if (x.empty() || x.size() > 600000) return;
   memcpy(R, x.data(), x.size());
   uint64_t items = 0;
   for (size_t i = 0; i < h.at("sizes").size() && !failed() && !g_run.foreign_seen; i++) {
